@@ -3,5 +3,7 @@ CONSTANTS
   MaxExt = 3
   MaxOps = 5
   Mode = "share"
+  NP = 6
 INVARIANTS DeriveIsPure OneOwner QuiescentReleased
+PROPERTY SelectionIsStable
 CHECK_DEADLOCK FALSE
